@@ -284,18 +284,22 @@ theorem intSgr_ok (cfg : Cfg) (s : Style) (ps : Seq) (hps : ∀ q ∈ ps, q ≠ 
   · exact intLoop_ok cfg _ (by simp) 0 s
   · exact intLoop_ok cfg _ hps 0 s
 
-theorem ssColour_ok (cfg : Cfg) (p : Nat) (subs : List SubTok) : ∃ r, ssColour cfg p subs = .ok r := by
+theorem ssColour_ok (cfg : Cfg) (p : Nat) (subs : List SubTok) (rest : List (List SubTok)) :
+    ∃ r, ssColour cfg p subs rest = .ok r := by
   unfold ssColour
   simp only []
   split
   · exact ⟨_, rfl⟩
+  split
+  · split <;> exact ⟨_, rfl⟩
   split
   · rw [idx_ok subs 2 (by omega)]; exact ⟨_, rfl⟩
   split
   · rw [idx_ok subs 2 (by omega), idx_ok subs 3 (by omega), idx_ok subs 4 (by omega)]; exact ⟨_, rfl⟩
   · exact ⟨_, rfl⟩
 
-theorem ssOne_ok (cfg : Cfg) (dflt s : Style) (subs : List SubTok) (h : subs ≠ []) : ∃ s', ssOne cfg dflt s subs = .ok s' := by
+theorem ssOne_ok (cfg : Cfg) (dflt s : Style) (subs : List SubTok) (rest : List (List SubTok)) (h : subs ≠ []) :
+    ∃ r, ssOne cfg dflt s subs rest = .ok r := by
   unfold ssOne
   have hl : 0 < subs.length := List.length_pos_iff.mpr h
   rw [idx_ok subs 0 hl]; simp only []
@@ -306,13 +310,13 @@ theorem ssOne_ok (cfg : Cfg) (dflt s : Style) (subs : List SubTok) (h : subs ≠
   split
   · exact ⟨_, rfl⟩
   split
-  · obtain ⟨c, hc⟩ := ssColour_ok cfg 38 subs
+  · obtain ⟨⟨c, k⟩, hc⟩ := ssColour_ok cfg 38 subs rest
     rw [hc]; cases c <;> exact ⟨_, rfl⟩
   split
-  · obtain ⟨c, hc⟩ := ssColour_ok cfg 48 subs
+  · obtain ⟨⟨c, k⟩, hc⟩ := ssColour_ok cfg 48 subs rest
     rw [hc]; cases c <;> exact ⟨_, rfl⟩
   split
-  · obtain ⟨c, hc⟩ := ssColour_ok cfg 58 subs
+  · obtain ⟨⟨c, k⟩, hc⟩ := ssColour_ok cfg 58 subs rest
     rw [hc]; cases c <;> exact ⟨_, rfl⟩
   split
   · split
@@ -325,15 +329,22 @@ theorem ssOne_ok (cfg : Cfg) (dflt s : Style) (subs : List SubTok) (h : subs ≠
     · exact ⟨_, rfl⟩
   · exact ⟨_, rfl⟩
 
-theorem ssLoop_ok (cfg : Cfg) (dflt : Style) (ps : List (List SubTok)) (hps : ∀ q ∈ ps, q ≠ []) :
-    ∀ s, ∃ s', ssLoop cfg dflt ps s = .ok s' := by
+theorem ssLoopK_ok (cfg : Cfg) (dflt : Style) (ps : List (List SubTok)) (hps : ∀ q ∈ ps, q ≠ []) :
+    ∀ k s, ∃ s', ssLoopK cfg dflt k ps s = .ok s' := by
   induction ps with
-  | nil => intro s; exact ⟨s, rfl⟩
+  | nil => intro k s; exact ⟨s, by simp [ssLoopK]⟩
   | cons subs rest ih =>
-    intro s
-    obtain ⟨s', h⟩ := ssOne_ok cfg dflt s subs (hps subs (List.mem_cons_self ..))
-    simp only [ssLoop, h]
-    exact ih (fun q hq => hps q (List.mem_cons_of_mem _ hq)) s'
+    intro k s
+    have hrest : ∀ q ∈ rest, q ≠ [] := fun q hq => hps q (List.mem_cons_of_mem _ hq)
+    cases k with
+    | succ k => simp only [ssLoopK]; exact ih hrest k s
+    | zero =>
+      obtain ⟨⟨s', k'⟩, h⟩ := ssOne_ok cfg dflt s subs rest (hps subs (List.mem_cons_self ..))
+      simp only [ssLoopK, h]
+      exact ih hrest k' s'
+
+theorem ssLoop_ok (cfg : Cfg) (dflt : Style) (ps : List (List SubTok)) (hps : ∀ q ∈ ps, q ≠ []) :
+    ∀ s, ∃ s', ssLoop cfg dflt ps s = .ok s' := fun s => ssLoopK_ok cfg dflt ps hps 0 s
 
 /-! ## The pen deltas mean what they should -/
 
@@ -1124,28 +1135,41 @@ theorem ss_empty (dflt s : Style) : ssSeq dflt s [] = .ok dflt := rfl
 theorem ss_solo (cfg : Cfg) (dflt s : Style) (p : Nat) (hl : p ∈ cfg.labels) (h0 : p ≠ 0)
     (h38 : p ≠ 38) (h48 : p ≠ 48) (h58 : p ≠ 58) (h4 : p ≠ 4) :
     ssLoop cfg dflt [[tokN p]] s = .ok (simple p s) := by
-  simp [ssLoop, ssOne, idx, tokN, hl, h0, h38, h48, h58, h4]
+  simp [ssLoop, ssLoopK, ssOne, idx, tokN, hl, h0, h38, h48, h58, h4]
 
 theorem ss_ul1 (cfg : Cfg) (dflt s : Style) (hl : 4 ∈ cfg.labels) (ha : cfg.accepts 4 1 = true) :
     ssLoop cfg dflt [[tokN 4]] s = .ok { s with ulStyle := SgrCases.UnderlineSingle } := by
-  simp [ssLoop, ssOne, idx, tokN, hl, ha]
+  simp [ssLoop, ssLoopK, ssOne, idx, tokN, hl, ha]
 
 theorem ss_ul2 (cfg : Cfg) (dflt s : Style) (n : Nat) (hl : 4 ∈ cfg.labels) (ha : cfg.accepts 4 2 = true)
     (hs : n ∈ cfg.ulSubs) :
     ssLoop cfg dflt [[tokN 4, tokN n]] s = .ok { s with ulStyle := ulConst n } := by
-  simp [ssLoop, ssOne, idx, tokN, hl, ha, hs]
+  simp [ssLoop, ssLoopK, ssOne, idx, tokN, hl, ha, hs]
 
 theorem ss_idx (cfg : Cfg) (dflt s : Style) (p n : Nat) (hp : p = 38 ∨ p = 48 ∨ p = 58)
     (hl : p ∈ cfg.labels) (ha : cfg.accepts p 3 = true) :
     ssLoop cfg dflt [[tokN p, tokN 5, tokN n]] s = .ok (setCol p s (indexColor (u8 n))) := by
   rcases hp with rfl | rfl | rfl <;>
-    simp [ssLoop, ssOne, idx, tokN, hl, ssColour, ha, setCol, u8i_nat]
+    simp [ssLoop, ssLoopK, ssOne, idx, tokN, hl, ssColour, ha, setCol, u8i_nat]
 
 theorem ss_rgb (cfg : Cfg) (dflt s : Style) (p r g b : Nat) (hp : p = 38 ∨ p = 48 ∨ p = 58)
     (hl : p ∈ cfg.labels) (ha : cfg.accepts p 5 = true) :
     ssLoop cfg dflt [[tokN p, tokN 2, tokN r, tokN g, tokN b]] s = .ok (setCol p s (rgbColor (u8 r) (u8 g) (u8 b))) := by
   rcases hp with rfl | rfl | rfl <;>
-    simp [ssLoop, ssOne, idx, tokN, hl, ssColour, ha, setCol, u8i_nat]
+    simp [ssLoop, ssLoopK, ssOne, idx, tokN, hl, ssColour, ha, setCol, u8i_nat]
+
+theorem ss_idx_legacy (cfg : Cfg) (dflt s : Style) (p n : Nat) (hp : p = 38 ∨ p = 48 ∨ p = 58)
+    (hl : p ∈ cfg.labels) (ha : cfg.accepts p 1 = true) :
+    ssLoop cfg dflt [[tokN p], [tokN 5], [tokN n]] s = .ok (setCol p s (indexColor (u8 n))) := by
+  rcases hp with rfl | rfl | rfl <;>
+    simp [ssLoop, ssLoopK, ssOne, idx, tokN, hl, ssColour, ssLegacy, rawIs, rawAtoi, ha, setCol, u8i_nat]
+
+theorem ss_rgb_legacy (cfg : Cfg) (dflt s : Style) (p r g b : Nat) (hp : p = 38 ∨ p = 48 ∨ p = 58)
+    (hl : p ∈ cfg.labels) (ha : cfg.accepts p 1 = true) :
+    ssLoop cfg dflt [[tokN p], [tokN 2], [tokN r], [tokN g], [tokN b]] s =
+      .ok (setCol p s (rgbColor (u8 r) (u8 g) (u8 b))) := by
+  rcases hp with rfl | rfl | rfl <;>
+    simp [ssLoop, ssLoopK, ssOne, idx, tokN, hl, ssColour, ssLegacy, rawIs, rawAtoi, ha, setCol, u8i_nat]
 
 theorem shown_default : shown {} = TStyle.reset := by
   simp [shown, TStyle.reset, col_zero, has]
@@ -1177,6 +1201,21 @@ theorem ss_refines (hc : Covers ssCfg) (s : Style) (x : Seq) (hx : emittable x =
     refine ⟨_, ss_rgb ssCfg {} s p r g b hp hl h5, ?_, fun hs => wf_setCol p s _ hs (wf_rgb r g b)⟩
     rw [shown_setCol p hp, u8_lt r hr, u8_lt g hg, u8_lt b hb, col_rgbColor r g b hr hg hb, spec_rgb p r g b hp]
 
+
+/-- Since the `fix:` for F118 `NewStyledString` also reads the legacy semicolon forms. -/
+theorem ss_refines_legacy (hc : Covers ssCfg) (hl1 : ∀ p, p = 38 ∨ p = 48 → ssCfg.accepts p 1 = true)
+    (s : Style) (x : Seq) (hx : emittableLegacy x = true) :
+    ∃ s', ssSeq {} s x = .ok s' ∧ shown s' = Spec.sgr (shown s) x ∧ (s.wf → s'.wf) := by
+  rcases emittableLegacy_cases x hx with h | ⟨p, n, hp, hn, rfl⟩ | ⟨p, r, g, b, hp, hr, hg, hb, rfl⟩
+  · exact ss_refines hc s x h
+  · have hp' : p = 38 ∨ p = 48 ∨ p = 58 := by rcases hp with h | h <;> simp [h]
+    obtain ⟨hl, _, _⟩ := hc.ext p hp'
+    refine ⟨_, ss_idx_legacy ssCfg {} s p n hp' hl (hl1 p hp), ?_, fun hs => wf_setCol p s _ hs (wf_index n)⟩
+    rw [shown_setCol p hp', u8_lt n hn, col_indexColor n hn, spec_idx_legacy p n hp']
+  · have hp' : p = 38 ∨ p = 48 ∨ p = 58 := by rcases hp with h | h <;> simp [h]
+    obtain ⟨hl, _, _⟩ := hc.ext p hp'
+    refine ⟨_, ss_rgb_legacy ssCfg {} s p r g b hp' hl (hl1 p hp), ?_, fun hs => wf_setCol p s _ hs (wf_rgb r g b)⟩
+    rw [shown_setCol p hp', u8_lt r hr, u8_lt g hg, u8_lt b hb, col_rgbColor r g b hr hg hb, spec_rgb_legacy p r g b hp']
 
 /-! ## Ranges of the other producers -/
 
@@ -1275,6 +1314,36 @@ theorem ss_fold_refines (hc : Covers ssCfg) (l : List Seq) (hl : ∀ x ∈ l, em
 theorem ss_delta_roundtrip (hc : Covers ssCfg) (legacy : Bool) (s n : Style) (hs : s.wf) (hn : n.wf) :
     foldC (ssSeq {}) s (ssDelta legacy s n) = .ok n := by
   obtain ⟨s', h, w, e⟩ := ss_fold_refines hc _ (ssDelta_range legacy s n hn.ulStyle) s hs
+  rw [ssDelta_correct legacy s n hn.ulStyle] at e
+  rw [h, shown_inj s' n w hn e]
+
+theorem ss_fold_refines_legacy (hc : Covers ssCfg) (hl1 : ∀ p, p = 38 ∨ p = 48 → ssCfg.accepts p 1 = true)
+    (l : List Seq) (hl : ∀ x ∈ l, emittableLegacy x = true) :
+    ∀ s, s.wf → ∃ s', foldC (ssSeq {}) s l = .ok s' ∧ s'.wf ∧ shown s' = apply (shown s) l := by
+  induction l with
+  | nil => intro s hs; exact ⟨s, rfl, hs, rfl⟩
+  | cons x l ih =>
+    intro s hs
+    obtain ⟨s1, h1, e1, w1⟩ := ss_refines_legacy hc hl1 s x (hl x (List.mem_cons_self ..))
+    obtain ⟨s2, h2, w2, e2⟩ := ih (fun y hy => hl y (List.mem_cons_of_mem _ hy)) s1 (w1 hs)
+    refine ⟨s2, ?_, w2, ?_⟩
+    · simp only [foldC, h1, h2]
+    · rw [e2, e1]; rfl
+
+/-- `NewStyledString` reads what `EncodeCells` writes, with or without the legacy quirk. -/
+theorem ss_delta_roundtrip_cells (hc : Covers ssCfg) (hl1 : ∀ p, p = 38 ∨ p = 48 → ssCfg.accepts p 1 = true)
+    (legacy : Bool) (s n : Style) (hs : s.wf) (hn : n.wf) :
+    foldC (ssSeq {}) s (encodeDelta legacy s n) = .ok n := by
+  obtain ⟨s', h, w, e⟩ := ss_fold_refines_legacy hc hl1 _ (encodeDelta_range legacy s n hn.ulStyle) s hs
+  rw [encodeDelta_correct legacy s n hn.ulStyle] at e
+  rw [h, shown_inj s' n w hn e]
+
+/-- `parseSGR` / the embedded terminal read what `StyledString.Encode` writes. -/
+theorem delta_roundtrip_ss (cfg : Cfg) (hc : Covers cfg) (hl1 : ∀ p, p = 38 ∨ p = 48 → cfg.accepts p 1 = true)
+    (legacy : Bool) (s n : Style) (hs : s.wf) (hn : n.wf) :
+    foldC (intSgr cfg) s (ssDelta legacy s n) = .ok n := by
+  obtain ⟨s', h, w, e⟩ := fold_refines cfg hc hl1 _
+    (fun x hx => eml_of_em x (ssDelta_range legacy s n hn.ulStyle x hx)) s hs
   rw [ssDelta_correct legacy s n hn.ulStyle] at e
   rw [h, shown_inj s' n w hn e]
 
